@@ -139,7 +139,8 @@ BASE = {
                         'ValueSizeConstraint': ValueSizeConstraint},
     'SNMPv2-SMI': dict(NODES, Integer32=Integer32, Unsigned32=Unsigned32, Gauge32=Gauge32, Counter32=Counter32,
                        Counter64=Counter64, TimeTicks=TimeTicks, IpAddress=IpAddress, Opaque=Opaque, Bits=Bits),
-    'SNMPv2-TC': {'TextualConvention': TextualConvention},
+    'SNMPv2-TC': {'TextualConvention': TextualConvention,
+                  'DisplayString': type('DisplayString', (TextualConvention, OctetString), {'_builtin': True})},
     'SNMPv2-CONF': {'ModuleCompliance': NODES['ModuleCompliance'], 'NotificationGroup': NODES['NotificationGroup'],
                     'ObjectGroup': NODES['ObjectGroup'], 'AgentCapabilities': NODES['AgentCapabilities']},
 }
@@ -158,6 +159,10 @@ class Missing(object):
 
     def __call__(self, *a, **k):
         return self
+
+    def __mro_entries__(self, bases):
+        # 'class X(<placeholder>)': derive from a stand-in type that carries the missing name
+        return (type(str(self.name), (Asn1Type,), {'_missing': True}),)
 
 
 class RecBuilder(object):
